@@ -93,7 +93,9 @@ def r1_projections(repo):
             varis = [s for s, pol in gs if pol and (s.endswith(".is_covariant()") or s.endswith(".is_contravariant()"))]
             if wild and varis and any(v.split(".")[0] == w_.split(".")[0] for v in varis for w_ in wild):
                 shape, why = "derived", "control-dependent on the existing projection `%s` (%s)" % (wild[0], varis[0])
-        key = "WildCardType@%s#%d" % (f.qualname, [x[1] for x in sites if x[0] is f].index(c))
+        # construct key: sites that are accounted for are numbered; fresh projections are keyed by the function that
+        # builds them (splitting one construction into two branches is the same construct)
+        key = "WildCardType@%s#%s" % (f.qualname, [x[1] for x in sites if x[0] is f].index(c) if shape is not None else "fresh")
         obs.append(Ob("C17-R1", key, _w(f, c), shape is not None,
                       ("%s: %s" % (shape, why)) if shape else
                       ("`%s` builds a fresh projection (variance `%s`, bound `%s`) that is neither a copy of an existing "
